@@ -165,6 +165,34 @@ def check_pair(ctx, kp, inc, exc, k, do_match=True):
                               {'target': n, 'include': inc, 'exclude': exc})
 
 
+def structured_sets():
+    """Tree-aware include/exclude sets: an inner category selected while (all / all but one of) its children, leaves or
+    descendants are excluded, with the include at the category, at its parent, or absent."""
+    out = []
+    inner = [n for n in M.ORDER if M.CHILDREN[n]]
+    for x in inner:
+        desc = sorted(M.DESC[x], key=M.ORDER.index)
+        groups = [tuple(M.CHILDREN[x]), tuple(sorted(M.leaves(x), key=M.ORDER.index)), tuple(desc)]
+        for d in desc:
+            groups.append(tuple(y for y in desc if y != d))
+            groups.append(tuple(y for y in sorted(M.leaves(x), key=M.ORDER.index) if y != d))
+        incs = [(x,), None]
+        if M.PARENT[x]:
+            incs.append((M.PARENT[x],))
+            incs.append((x, M.PARENT[x]))
+        for g in groups:
+            for inc in incs:
+                out.append((inc, g))
+                out.append((g, (x,)))          # the other way round: children included, the inner node excluded
+    seen = set()
+    uniq = []
+    for p_ in out:
+        if p_ not in seen:
+            seen.add(p_)
+            uniq.append(p_)
+    return uniq
+
+
 def arg_space(maxsize):
     out = [None, ()]
     for n in M.ORDER:
@@ -196,7 +224,8 @@ def run(ctx: Ctx):
     ctx.rule = ('exhaustive grids over the 37 documented categories: tree()/hierarchy literal parsed back to a forest; '
                 'children/nodes/leaves/all for all 37; is_child for all 37x37 ordered pairs (both entry points); '
                 'valid + 37 x match for include/exclude argument pairs (quick: sizes <=1 incl. None and empty, plus '
-                'sampled size-2 and larger sets; thorough: all 705x705 pairs of size <=2 sharded, valid on every pair, '
+                'sampled size-2 and larger sets, and tree-aware structured sets (an inner category selected while all / all but one of its '
+                'children, leaves or descendants are excluded); thorough: all 705x705 pairs of size <=2 sharded, valid on every pair, '
                 'match on every pair); argument forms set/list/tuple/single rotated. Non-trivial = nested-parent '
                 'is_child pair, category with children, or include/exclude pair whose closures overlap; distinct by value.')
     ctx.assumptions = ['the documented tree is the Tree: block of README.md, copied into model/cattree.py',
@@ -221,6 +250,9 @@ def run(ctx: Ctx):
             inc = tuple(rng.sample(M.ORDER, rng.randint(3, 12)))
             exc = tuple(rng.sample(M.ORDER, rng.randint(0, 8)))
             check_pair(ctx, kp, inc, exc, rng.randrange(16), do_match=(j % 3 == 0))
+        for j, (inc, exc) in enumerate(structured_sets()):
+            check_pair(ctx, kp, inc, exc, j)
+            ctx.mon('structured_pairs')
         ctx.sample({'include': ['NOTE_REST'], 'exclude': ['PITCH'], 'valid': sorted(M.valid(('NOTE_REST',), ('PITCH',)))})
         ctx.sample({'is_child': {'child': 'PITCH', 'parent': 'NOTE', 'expected': True}})
         ctx.exhaustive = True
@@ -238,6 +270,10 @@ def run(ctx: Ctx):
                 check_pair(ctx, kp, inc, exc, k)
                 k += 1
                 n += 1
+        if shard_i == 0:
+            for j, (inc, exc) in enumerate(structured_sets()):
+                check_pair(ctx, kp, inc, exc, j)
+                ctx.mon('structured_pairs')
         for j in range(50000 // shard_n):
             inc = tuple(rng.sample(M.ORDER, rng.randint(3, 15)))
             exc = tuple(rng.sample(M.ORDER, rng.randint(0, 10)))
